@@ -1917,6 +1917,21 @@ def clone(
     return copy.deepcopy(x, memo) if deep else copy.copy(x)
 
 
+def clone_member(x: Any, deep: bool, memo: Optional[Any] = None) -> Any:
+  """Clones a member of a symbolic container.
+
+  In a shallow clone symbolic members are copied and non-symbolic leaves are
+  shared, which includes symbolic values held inside tuples.
+  """
+  if deep or isinstance(x, Symbolic):
+    return clone(x, deep, memo)
+  if isinstance(x, tuple):
+    items = [clone_member(v, deep, memo) for v in x]
+    if any(new is not old for new, old in zip(items, x)):
+      return tuple(items)
+  return x
+
+
 def is_deterministic(x: Any) -> bool:
   """Returns if the input value is deterministic.
 
